@@ -207,8 +207,8 @@ Definition usable_nodes_upto_ancestors (u : gobs) : bool :=
   forallb (fun x => mem_sym x (o_nodes u)) reach_star && forallb (fun x => mem_sym x reach_anc) (o_nodes u).
 Definition usable_same_rules (u : gobs) : bool :=
   forallb (fun s => if is_abstract d s
-                    then list_eqb sym_eqb (match find (fun kv => sym_eqb (fst kv) s) (o_alts u) with Some kv => snd kv | None => [] end)
-                                          (oalts s)
+                    then set_eqb (match find (fun kv => sym_eqb (fst kv) s) (o_alts u) with Some kv => snd kv | None => [] end)
+                                 (oalts s)      (* the same productions; their order is not part of "generates the same programs" *)
                     else true) reach_star.
 End Spec05.
 
